@@ -32,7 +32,7 @@ Theorem C08_accepted_implies : forall y m d h mi s ns, 0 <= m -> 0 <= d -> is_gr
   1 <= m <= 12 /\ 1 <= d <= 31 /\ h <= 24 /\ mi <= 59 /\ s <= 60 /\ ns <= 1000000000 /\
   (s = 60 -> model_leap_clause y m d = true /\ h = 23 /\ mi = 59).
 Proof. exact valid_bounds. Qed.
-Theorem C08_leap_second_days_are_the_table : forall y m d,
+Theorem C08_leap_second_days_are_the_table : forall y m d, in_i32 y ->
   model_leap_clause y m d = existsb (date_eqb (y, m, d)) leap_days.
 Proof. exact model_leap_clause_is_table. Qed.
 (* anything else is an error, never a shifted date *)
